@@ -242,6 +242,13 @@ def forms_rules(repo, rep):
             pb = [k.value.value for k in b.keywords if k.arg == 'positive' and isinstance(k.value, ast.Constant)]
             tst = isinstance(r.test, ast.Compare) and isinstance(r.test.ops[0], ast.GtE) and isinstance(r.test.comparators[0], ast.Constant) and r.test.comparators[0].value == 0
             ok = same_args and pa == [True] and pb == [False] and tst
+        if isinstance(r, ast.Call):
+            # one constructor call whose flag is the comparison itself: K(fields, positive=x >= 0)
+            for k in r.keywords:
+                if k.arg == 'positive' and isinstance(k.value, ast.Compare) and len(k.value.ops) == 1 and isinstance(k.value.ops[0], ast.GtE) \
+                        and isinstance(k.value.left, ast.Name) and k.value.left.id == f.params[0].name \
+                        and isinstance(k.value.comparators[0], ast.Constant) and k.value.comparators[0].value == 0:
+                    ok = True
         if ok:
             rep.holds('R-SIBLING', key, where(f, rets[-1]), '%s builds the same fields with positive=True for arguments >= 0 and positive=False otherwise' % q)
         else:
@@ -712,6 +719,12 @@ def digit_rules(repo, rep):
                         rep.holds('R-SIBLING', skey, w, '%s: positive=%s for hp %s 0' % (q, flag.b, '>=' if sign > 0 else '<'))
                     elif isinstance(flag, Bool):
                         rep.violated('R-SIBLING', skey, w, '%s builds the object with positive=%s for a %s HP value' % (q, flag.b, 'non-negative' if sign > 0 else 'negative'))
+                    elif isinstance(flag, Rat) and any(alg.TABLE.atoms[k_].kind == 'fn' and alg.TABLE.atoms[k_].name in ('in', 'notin') and any(isinstance(x_, str) and x_ in ('str<->', 'str<+>') for x_ in alg.TABLE.atoms[k_].args)
+                                                       for k_ in flag.atoms(deep=True)):
+                        # the sign is read off the TEXT of the number ('-' in str(x)): the shortest repr of a float below 1e-4 is in exponent
+                        # form - '5e-05' holds a minus sign although the number is positive
+                        rep.violated('R-SIBLING', skey, w, '%s takes the sign flag from a test for a sign CHARACTER in the text of the number (%s): a positive value below 0.0001 prints in exponent '
+                                     'form (5e-05) and counts as negative - %s(0.00005) is -0 deg 0 min 0.5 sec' % (q, show(flag, 2, 60), q), expected='hp >= 0', actual=show(flag, 2, 80))
                     else:
                         rep.undecided('R-SIBLING', skey, w, '%s: sign flag not decided: %s' % (q, show(flag, 2, 80)))
             # validators: the rejected set is exactly {minutes field >= 60 or seconds field >= 60}
@@ -1119,6 +1132,7 @@ def run(repo, rep):
     method_value_table(repo, rep)
     float_subclass_rule(repo, rep)
     vector_rules(repo, rep)
+    threshold_sibling_rule(repo, rep)
 
 
 def method_value_table(repo, rep):
@@ -1337,6 +1351,84 @@ def vector_rules(repo, rep):
                          'such values' % (stmt_text(bad)[:50], bad.target.id), expected='a new array: x = degree + minute / 60 + ...', actual=stmt_text(bad)[:60])
         else:
             rep.holds('R-DTYPE', key, where(f, f.node), '%s builds its result as a new array (no in-place accumulation into an array of the argument\'s element type)' % name, work=False)
+
+
+def threshold_sibling_rule(repo, rep):
+    """the vectorised converters switch their resolution at the same magnitude as their scalar twins (from 512 degrees up a double no longer
+    resolves the 13th decimal of an HP value).  Every comparison of the argument's magnitude - or of its whole degrees - with a constant is
+    brought to the form "|x| >= T" / "|x| > T" (whole degrees d: d > c means |x| >= c + 1) and the sets of the two functions must agree:
+    `degree > 512` treats 512.18 as a small angle, rounds its seconds to 9 decimals and prints 512.1059999999997 for 512 10 59.999999996."""
+    m = repo.module('geodepy.angles')
+
+    def thresholds(f):
+        p0 = f.params[0].name
+        kind = {}
+        quot = set()
+
+        def is_mag(e):
+            return (isinstance(e, ast.Call) and (getattr(e.func, 'id', '') or getattr(e.func, 'attr', '')) in ('abs', 'fabs', 'absolute') and e.args
+                    and isinstance(e.args[0], ast.Name) and e.args[0].id == p0) or (isinstance(e, ast.Name) and kind.get(e.id) == 'mag')
+        for st in ast.walk(f.node):
+            if isinstance(st, ast.Assign) and len(st.targets) == 1:
+                t, v = st.targets[0], st.value
+                if isinstance(t, ast.Name) and is_mag(v):
+                    kind[t.id] = 'mag'
+                if isinstance(t, ast.Name) and isinstance(v, ast.BinOp) and isinstance(v.op, ast.FloorDiv) and is_mag(v.left) and isinstance(v.right, ast.Constant) and v.right.value == 1:
+                    kind[t.id] = 'deg'
+                if isinstance(t, ast.Name) and isinstance(v, ast.Call) and getattr(v.func, 'id', getattr(v.func, 'attr', '')) in ('int', 'floor', 'trunc') and v.args and is_mag(v.args[0]):
+                    kind[t.id] = 'deg'
+                if isinstance(t, ast.Tuple) and len(t.elts) == 2 and isinstance(v, ast.Call) and getattr(v.func, 'id', '') == 'divmod' and len(v.args) == 2 and isinstance(t.elts[0], ast.Name):
+                    a0 = v.args[0]
+                    if isinstance(a0, ast.BinOp) and isinstance(a0.op, ast.Mult) and (is_mag(a0.left) or is_mag(a0.right)):
+                        quot.add(t.elts[0].id)          # whole minutes (x 3600 / 60) or whole degree-minutes
+                    elif isinstance(a0, ast.Name) and a0.id in quot:
+                        kind[t.elts[0].id] = 'deg'
+        out = set()
+        sites = []
+        for c in ast.walk(f.node):
+            if isinstance(c, ast.Compare) and len(c.ops) == 1 and isinstance(c.comparators[0], ast.Constant) and isinstance(c.comparators[0].value, (int, float)) and c.comparators[0].value >= 100:
+                k = 'mag' if is_mag(c.left) else (kind.get(c.left.id) if isinstance(c.left, ast.Name) else None)
+                if k is None:
+                    continue
+                cv = c.comparators[0].value
+                op = type(c.ops[0])
+                if k == 'mag':
+                    t = {ast.Lt: (cv, 'ge'), ast.GtE: (cv, 'ge'), ast.LtE: (cv, 'gt'), ast.Gt: (cv, 'gt')}.get(op)
+                else:
+                    t = {ast.Lt: (cv, 'ge'), ast.GtE: (cv, 'ge'), ast.LtE: (cv + 1, 'ge'), ast.Gt: (cv + 1, 'ge')}.get(op)
+                if t is not None:
+                    out.add(t)
+                    sites.append((c, t))
+        return out, sites
+    for name, f in sorted(m.functions.items()):
+        if not name.endswith('_v') or not f.params or name[:-2] not in m.functions:
+            continue
+        g = m.functions[name[:-2]]
+        tv, sites_v = thresholds(f)
+        ts, sites_s = thresholds(g)
+        # helpers of the same module that are handed the argument itself (hp2dec reads its digits through _hp_decimals)
+        for h_ in (f, g):
+            for c in ast.walk(h_.node):
+                if isinstance(c, ast.Call) and isinstance(c.func, ast.Name) and c.func.id in m.functions and c.func.id not in (f.qualname, g.qualname) and c.args \
+                        and isinstance(c.args[0], ast.Name) and c.args[0].id == h_.params[0].name and m.functions[c.func.id].params:
+                    t2, s2 = thresholds(m.functions[c.func.id])
+                    if h_ is f:
+                        tv, sites_v = tv | t2, sites_v + s2
+                    else:
+                        ts, sites_s = ts | t2, sites_s + s2
+        key = 'R-SIBLING::geodepy/angles.py::%s::resolution-threshold' % name
+        if not ts and not tv:
+            rep.holds('R-SIBLING', key, where(f, f.node), '%s and %s switch their resolution at no magnitude' % (name, g.qualname), work=False)
+        elif tv == ts:
+            rep.holds('R-SIBLING', key, where(f, sites_v[0][0]), '%s switches its resolution where %s does: %s' % (name, g.qualname, sorted(ts)))
+        else:
+            odd = [sv_ for sv_ in sites_v if sv_[1] not in ts]
+            nd = odd[0][0] if odd else f.node
+            rep.violated('R-SIBLING', key, where(f, nd), '%s switches its resolution at |x| %s, its scalar twin %s at |x| %s%s: between the two thresholds the vectorised result keeps a '
+                         'decimal the double does not resolve (dec2hp_v of 512 10 59.999999996 prints 512.1059999999997, which reads as 60 seconds and is refused by hp2dec)'
+                         % (name, ', '.join('%s %s' % ('>=' if s_ == 'ge' else '>', c_) for c_, s_ in sorted(tv)) or 'nowhere', g.qualname,
+                            ', '.join('%s %s' % ('>=' if s_ == 'ge' else '>', c_) for c_, s_ in sorted(ts)) or 'nowhere', (' (`%s`)' % stmt_text(nd)) if odd else ''),
+                         expected=str(sorted(ts)), actual=str(sorted(tv)))
 
 
 def vector_validator_rule(repo, rep):
